@@ -782,7 +782,7 @@ def run_exp(cx):
     rng = cx.sub_rng("c11exp")
     Gen.FIX = src_flags()
     cx.dist["c11exp:source-has-repairs:" + (",".join(k for k in ("f390", "f391", "f392") if Gen.FIX.get(k)) or "none")] += 1
-    nsets = cx.n(90, 1500)
+    nsets = cx.n(70, 1500)
     cx.rule("c11exp: %d generated schema values of the compiler-core DSL (typedef chains reused by several leaves, nested groupings with refines at "
             "several levels and uses-augments, choice/case + shorthand, chained / sibling top-level augments over 1-4 modules, deviations, if-feature, "
             "when, status) + 1 in 6 damaged (refine / augment / deviation target missing, wrong kind, duplicate name, config, min>max, default "
